@@ -22,6 +22,7 @@ import (
 	"path/filepath"
 	"strings"
 	"sync"
+	"sync/atomic"
 	"syscall"
 	"time"
 
@@ -149,6 +150,21 @@ func (g *gateUpstream) waitArrivals(n int, patience time.Duration) bool {
 	return true
 }
 
+var srvCounter uint32
+
+// srvListen listens on a loopback address of this process' own (127.116-127.x.y: other checks use 127.16-115 and
+// 127.128-254), so that the address handed to the child cannot be taken by a server of another shard or run between
+// closing the probe listener and the child's bind - a client would then talk to somebody else's server.
+func srvListen() (net.Listener, error) {
+	k := atomic.AddUint32(&srvCounter, 1)
+	pid := uint32(os.Getpid())
+	ip := fmt.Sprintf("127.%d.%d.%d", 116+pid%12, (pid/12+k/250)%256, 1+k%250)
+	if l, err := net.Listen("tcp", ip+":0"); err == nil {
+		return l, nil
+	}
+	return net.Listen("tcp", "127.0.0.1:0")
+}
+
 func srvIndexBytes(seed uint64) []byte {
 	n := 1 + int(seed%5)
 	// a small well-formed caibx made by the independent codec
@@ -239,7 +255,7 @@ func runSrvProc(c SrvCase) (o hx.Outcome) {
 		}
 		objs[i] = ob
 	}
-	ul, err := net.Listen("tcp", "127.0.0.1:0")
+	ul, err := srvListen()
 	if err != nil {
 		return inconclusive("listen")
 	}
@@ -248,7 +264,7 @@ func runSrvProc(c SrvCase) (o hx.Outcome) {
 	defer usrv.Close()
 
 	// ---- the server process
-	sl, err := net.Listen("tcp", "127.0.0.1:0")
+	sl, err := srvListen()
 	if err != nil {
 		return inconclusive("listen")
 	}
@@ -309,6 +325,11 @@ func runSrvProc(c SrvCase) (o hx.Outcome) {
 	}
 	if !up {
 		return inconclusive("server-start-timeout")
+	}
+	select {
+	case <-exited: // somebody answers at the address, but it is not our child
+		return inconclusive("listen-address-taken")
+	default:
 	}
 
 	// ---- overlapping client requests
